@@ -348,6 +348,7 @@ BSpare    == Ok(st) => SpareCellsZero(st)
 BTables   == Ok(st) => TablesOK(st)
 BRelIndex == Ok(st) => RelIndexOK(st)
 BCache    == Ok(st) => CacheOK(st)
+BGraph    == Ok(st) => (GraphOK(st) /\ CompIndexOK(st))
 BLock     == Ok(st) => (LockOK(st) /\ (IsLockedB(st) <=> Locked(gw)) /\ DOMAIN st.qs = DOMAIN gw.open)
 \* C03: an open query yields exactly what is left of its selection
 BOpenRows == Ok(st) => \A q \in DOMAIN st.qs : SetOf(st.qs[q].rows) = gw.open[q].rem /\ Len(st.qs[q].rows) = Cardinality(gw.open[q].rem)
